@@ -22,6 +22,8 @@ META = {
     'exhaustive': True,
 }
 
+META['explanation'] += ' ' + 'R7: serialiser functions apply no strict text codec to field values. R8: serialisers store nothing into the rendered object (effect analysis of C13.R1 on the serialiser entry points).'
+
 SET_NAMES = {'set', 'frozenset'}
 
 
